@@ -173,9 +173,13 @@ Definition fsm_input (rfc : bool) (c : cframe) (f : fsm) : fsm * list act :=
   end.
 
 (* variant: [vrep] session logic of /repo HEAD (true) or of the code before the C03 fixes (false); [vrfc] FSM table flavour *)
-Record vr := mkV3 { vrep : bool; vrfc : bool;
-                     vtd : bool   (* the session is torn down when LCP leaves Opened on an authenticated link
-                                     (fixes/C03_pppoe_lcp_down_teardown.patch); false = /repo HEAD without it *) }.
+Record vr := mkV4 { vrep : bool; vrfc : bool;
+                     vtd : bool;  (* the session is torn down when LCP leaves Opened on an authenticated link
+                                     (fixes/C03_pppoe_lcp_down_teardown.patch); false = /repo HEAD without it *)
+                     vhl : bool   (* an AAA answer that was matched to a session before that session was torn down is
+                                     dropped when it gets the session lock (fixes/C03_pppoe_aaa_answer_after_teardown.patch);
+                                     false = /repo HEAD without it *) }.
+Definition mkV3 (rep rfc td : bool) : vr := mkV4 rep rfc td td.
 Definition mkV (rep rfc : bool) : vr := mkV3 rep rfc true.
 
 (* ------------------------------------------------------------------ *)
@@ -186,6 +190,27 @@ Inductive ptype := PtNone | PtPap | PtChap.
 Inductive addr := ANone | APool | AStatic | AFallback.
 Definition addr_eqb (a b : addr) : bool :=
   match a, b with ANone, ANone | APool, APool | AStatic, AStatic | AFallback, AFallback => true | _, _ => false end.
+
+(* IPv6 leases of one session.  Addresses (prefixes) this session has taken from the registry pool are numbered
+   0,1,.. in the order taken; none goes back before terminate.  Three places refer to them:
+     s.IPv6Address / s.IPv6Prefix        (xs)  -- what terminate releases
+     s.AllocCtx.IPv6Address / IPv6Prefix (xc)  -- what dhcp.ResolveV6 reuses; a NEW AllocCtx is built at every accept
+     the local DHCPv6 provider's lease for the client DUID (xl), with "PoolName != """ (ReleaseLease releases only then) *)
+Record fam6 := mkF6 { xs : option nat; xc : option nat; xl : option (nat * bool); xn : nat }.
+Definition fam0 : fam6 := mkF6 None None None 0.
+Record v6st := mkV6 { na : fam6; pd : fam6 }.
+Definition v60 : v6st := mkV6 fam0 fam0.
+Definition onat_eqb (a b : option nat) : bool :=
+  match a, b with Some x, Some y => Nat.eqb x y | None, None => true | _, _ => false end.
+(* what terminate + cleanupSession give back: s.IPv6Address and, if it is another one, the address of a provider lease
+   that still knows its pool *)
+Definition released (f : fam6) : nat :=
+  match xs f, xl f with
+  | Some a, Some (b, true) => if Nat.eqb a b then 1 else 2
+  | Some _, _ => 1
+  | None, Some (_, true) => 1
+  | None, _ => 0
+  end.
 
 Record sess := mkS {
   live : bool;          (* present in the component's indexes *)
@@ -201,53 +226,118 @@ Record sess := mkS {
   cur4 : addr;          (* s.IPv4Address *)
   assigned4 : addr;     (* ipcp.peer.PeerAddress *)
   acked4 : addr;        (* ipcp.peer.Address: what the client's last parsable Configure-Request carried *)
-  alloc_pool : bool     (* s.allocatedPool != "": a pool address is leased to this session *)
+  alloc_pool : bool;    (* s.allocatedPool != "": a pool address is leased to this session *)
+  v6 : v6st             (* IPv6 leases of the IPv6 profile: IA_NA addresses and delegated prefixes *)
 }.
 Definition sess0 : sess :=
-  mkS false 0 PDead fsm0 fsm0 fsm0 true 0 None PtNone false false false ANone ANone ANone false.
+  mkS false 0 PDead fsm0 fsm0 fsm0 true 0 None PtNone false false false ANone ANone ANone false v60.
 
 Inductive out :=
 | OPads | OLcp (c : nat) | OPap (c : nat) | OChap (c : nat) | OIpcp (c : nat) | OIp6cp (c : nat)
 | ORa | ONa | OReq (k : nat) | OLifeA | OLifeR | OSbAdd | OSbDel | OProg
 | ODh6Adv | ODh6Reply | OSb6Add      (* DHCPv6 over PPP: ADVERTISE, REPLY with an address, dataplane IPv6 binding *)
+| OSb6Del | OSbPdAdd | OSbPdDel       (* bindDHCPv6: old IPv6 binding removed; delegated-prefix route added / removed *)
 (* ghost markers, not visible to the harness *)
 | GAlloc | GLcpDown | GLcpUp.
 
 (* what the property calls service *)
 Definition service (o : out) : bool :=
   match o with
-  | OIpcp _ | OIp6cp _ | ORa | ONa | OLifeA | OSbAdd | GAlloc | ODh6Adv | ODh6Reply | OSb6Add => true
+  | OIpcp _ | OIp6cp _ | ORa | ONa | OLifeA | OSbAdd | GAlloc | ODh6Adv | ODh6Reply | OSb6Add | OSbPdAdd => true
   | _ => false
   end.
 
 (* the machine threaded through one session's handlers *)
 Record mach := mkM { ms : sess; mn : nat (* AAA requests published so far *); mfree : nat (* free pool addresses *);
-                     mq : list (nat * nat) (* queued southbound adds: slot, gen *); mo : list out (* reversed *) }.
-Definition emit (o : out) (m : mach) : mach := mkM (ms m) (mn m) (mfree m) (mq m) (o :: mo m).
-Definition upd (f : sess -> sess) (m : mach) : mach := mkM (f (ms m)) (mn m) (mfree m) (mq m) (mo m).
+                     mq : list (nat * nat) (* queued southbound adds: slot, gen *); mo : list out (* reversed *);
+                     mfree6 : nat * nat (* free IA_NA addresses, free delegated prefixes *) }.
+Definition emit (o : out) (m : mach) : mach := mkM (ms m) (mn m) (mfree m) (mq m) (o :: mo m) (mfree6 m).
+Definition upd (f : sess -> sess) (m : mach) : mach := mkM (f (ms m)) (mn m) (mfree m) (mq m) (mo m) (mfree6 m).
 
 Definition set_ph p s := mkS (live s) (gen s) p (lcp s) (ipcp s) (ip6cp s) (auth_chap s) (chap_retry s) (pend s) (pty s)
-  (ipcp_open s) (ip6cp_open s) (static_attr s) (cur4 s) (assigned4 s) (acked4 s) (alloc_pool s).
+  (ipcp_open s) (ip6cp_open s) (static_attr s) (cur4 s) (assigned4 s) (acked4 s) (alloc_pool s) (v6 s).
 Definition set_lcp f s := mkS (live s) (gen s) (ph s) f (ipcp s) (ip6cp s) (auth_chap s) (chap_retry s) (pend s) (pty s)
-  (ipcp_open s) (ip6cp_open s) (static_attr s) (cur4 s) (assigned4 s) (acked4 s) (alloc_pool s).
+  (ipcp_open s) (ip6cp_open s) (static_attr s) (cur4 s) (assigned4 s) (acked4 s) (alloc_pool s) (v6 s).
 Definition set_ipcp f s := mkS (live s) (gen s) (ph s) (lcp s) f (ip6cp s) (auth_chap s) (chap_retry s) (pend s) (pty s)
-  (ipcp_open s) (ip6cp_open s) (static_attr s) (cur4 s) (assigned4 s) (acked4 s) (alloc_pool s).
+  (ipcp_open s) (ip6cp_open s) (static_attr s) (cur4 s) (assigned4 s) (acked4 s) (alloc_pool s) (v6 s).
 Definition set_ip6cp f s := mkS (live s) (gen s) (ph s) (lcp s) (ipcp s) f (auth_chap s) (chap_retry s) (pend s) (pty s)
-  (ipcp_open s) (ip6cp_open s) (static_attr s) (cur4 s) (assigned4 s) (acked4 s) (alloc_pool s).
+  (ipcp_open s) (ip6cp_open s) (static_attr s) (cur4 s) (assigned4 s) (acked4 s) (alloc_pool s) (v6 s).
 Definition set_auth_chap b s := mkS (live s) (gen s) (ph s) (lcp s) (ipcp s) (ip6cp s) b (chap_retry s) (pend s) (pty s)
-  (ipcp_open s) (ip6cp_open s) (static_attr s) (cur4 s) (assigned4 s) (acked4 s) (alloc_pool s).
+  (ipcp_open s) (ip6cp_open s) (static_attr s) (cur4 s) (assigned4 s) (acked4 s) (alloc_pool s) (v6 s).
 Definition set_retry n s := mkS (live s) (gen s) (ph s) (lcp s) (ipcp s) (ip6cp s) (auth_chap s) n (pend s) (pty s)
-  (ipcp_open s) (ip6cp_open s) (static_attr s) (cur4 s) (assigned4 s) (acked4 s) (alloc_pool s).
+  (ipcp_open s) (ip6cp_open s) (static_attr s) (cur4 s) (assigned4 s) (acked4 s) (alloc_pool s) (v6 s).
 Definition set_pend p t s := mkS (live s) (gen s) (ph s) (lcp s) (ipcp s) (ip6cp s) (auth_chap s) (chap_retry s) p t
-  (ipcp_open s) (ip6cp_open s) (static_attr s) (cur4 s) (assigned4 s) (acked4 s) (alloc_pool s).
+  (ipcp_open s) (ip6cp_open s) (static_attr s) (cur4 s) (assigned4 s) (acked4 s) (alloc_pool s) (v6 s).
 Definition set_ipcp_open b s := mkS (live s) (gen s) (ph s) (lcp s) (ipcp s) (ip6cp s) (auth_chap s) (chap_retry s) (pend s) (pty s)
-  b (ip6cp_open s) (static_attr s) (cur4 s) (assigned4 s) (acked4 s) (alloc_pool s).
+  b (ip6cp_open s) (static_attr s) (cur4 s) (assigned4 s) (acked4 s) (alloc_pool s) (v6 s).
 Definition set_ip6cp_open b s := mkS (live s) (gen s) (ph s) (lcp s) (ipcp s) (ip6cp s) (auth_chap s) (chap_retry s) (pend s) (pty s)
-  (ipcp_open s) b (static_attr s) (cur4 s) (assigned4 s) (acked4 s) (alloc_pool s).
+  (ipcp_open s) b (static_attr s) (cur4 s) (assigned4 s) (acked4 s) (alloc_pool s) (v6 s).
 Definition set_addr st c a k al s := mkS (live s) (gen s) (ph s) (lcp s) (ipcp s) (ip6cp s) (auth_chap s) (chap_retry s) (pend s) (pty s)
-  (ipcp_open s) (ip6cp_open s) st c a k al.
+  (ipcp_open s) (ip6cp_open s) st c a k al (v6 s).
+Definition set_v6 b s := mkS (live s) (gen s) (ph s) (lcp s) (ipcp s) (ip6cp s) (auth_chap s) (chap_retry s) (pend s) (pty s)
+  (ipcp_open s) (ip6cp_open s) (static_attr s) (cur4 s) (assigned4 s) (acked4 s) (alloc_pool s) b.
 Definition set_live b s := mkS b (gen s) (ph s) (lcp s) (ipcp s) (ip6cp s) (auth_chap s) (chap_retry s) (pend s) (pty s)
-  (ipcp_open s) (ip6cp_open s) (static_attr s) (cur4 s) (assigned4 s) (acked4 s) (alloc_pool s).
+  (ipcp_open s) (ip6cp_open s) (static_attr s) (cur4 s) (assigned4 s) (acked4 s) (alloc_pool s) (v6 s).
+
+(* ---- IPv6 leases ---- *)
+Definition pool_of (pdf : bool) (p : nat * nat) : nat := if pdf then snd p else fst p.
+Definition pool_set (pdf : bool) (n : nat) (p : nat * nat) : nat * nat := if pdf then (fst p, n) else (n, snd p).
+Definition fam_of (pdf : bool) (x : v6st) : fam6 := if pdf then pd x else na x.
+Definition fam_set (pdf : bool) (f : fam6) (x : v6st) : v6st := if pdf then mkV6 (na x) f else mkV6 f (pd x).
+Definition on_fam (pdf : bool) (g : fam6 -> fam6) (s : sess) : sess := set_v6 (fam_set pdf (g (fam_of pdf (v6 s))) (v6 s)) s.
+(* registry.AllocateIANAFromProfile / AllocatePDFromProfile for this session: the next address of the pool, whatever the
+   session holds already (PoolAllocator.Allocate does not look at the owner) *)
+Definition alloc6 (pdf : bool) (m : mach) : option (nat * mach) :=
+  match pool_of pdf (mfree6 m) with
+  | O => None
+  | S n =>
+    let k := xn (fam_of pdf (v6 (ms m))) in
+    Some (k, emit GAlloc (mkM (on_fam pdf (fun f => mkF6 (xs f) (xc f) (xl f) (S k)) (ms m)) (mn m) (mfree m) (mq m) (mo m)
+                              (pool_set pdf n (mfree6 m))))
+  end.
+(* dhcp.ResolveV6, one family: reuse what the AllocCtx has, else take one from the pool; the pool NAME is reported
+   only by the call that takes it *)
+Definition resolve6 (pdf : bool) (m : mach) : mach * bool :=
+  match xc (fam_of pdf (v6 (ms m))) with
+  | Some _ => (m, false)
+  | None =>
+    match alloc6 pdf m with
+    | Some (k, m2) => (upd (on_fam pdf (fun f => mkF6 (xs f) (Some k) (xl f) (xn f))) m2, true)
+    | None => (m, false)
+    end
+  end.
+(* plugins/dhcp6/local reserveIANA / reservePD with the resolved value *)
+Definition reserve6 (pdf named : bool) (s : sess) : sess :=
+  on_fam pdf (fun f => match xc f with Some a => mkF6 (xs f) (xc f) (Some (a, named)) (xn f) | None => f end) s.
+Definition reserved6 (pdf : bool) (s : sess) : bool :=
+  let f := fam_of pdf (v6 s) in
+  match xc f, xl f with Some _, None => false | _, _ => true end.
+(* pppoe/dhcpv6.go forwardDHCPv6 for a client message that asks for IA_NA and IA_PD ([req]: REQUEST, else SOLICIT),
+   with the local provider; bindDHCPv6 after a REPLY.  When neither an address nor a prefix can be resolved the
+   provider's own (registry-independent) allocation would run: not modelled, the generator keeps one pool large. *)
+Definition dh6 (req : bool) (m : mach) : mach :=
+  let '(m1, n_na) := resolve6 false m in
+  let '(m2, n_pd) := resolve6 true m1 in
+  let s := ms m2 in
+  match xc (na (v6 s)), xc (pd (v6 s)) with
+  | None, None => m2
+  | _, _ =>
+    if req then
+      let s1 := reserve6 true n_pd (reserve6 false n_na s) in
+      let old_na := xs (na (v6 s1)) in let new_na := xc (na (v6 s1)) in
+      let old_pd := xs (pd (v6 s1)) in let new_pd := xc (pd (v6 s1)) in
+      let s2 := on_fam true (fun f => mkF6 (xc f) (xc f) (xl f) (xn f))
+                (on_fam false (fun f => mkF6 (xc f) (xc f) (xl f) (xn f)) s1) in
+      let m3 := emit ODh6Reply (upd (fun _ => s2) m2) in
+      let m4 := match old_na with Some _ => if onat_eqb old_na new_na then m3 else emit OSb6Del m3 | None => m3 end in
+      let m5 := match new_na with Some _ => emit OSb6Add m4 | None => m4 end in
+      let m6 := match old_pd with Some _ => if onat_eqb old_pd new_pd then m5 else emit OSbPdDel m5 | None => m5 end in
+      match new_pd with Some _ => emit OSbPdAdd m6 | None => m6 end
+    else
+      let s1 := if reserved6 false s && reserved6 true s then s
+                else reserve6 true n_pd (reserve6 false n_na s) in
+      emit ODh6Adv (upd (fun _ => s1) m2)
+  end.
 
 Inductive ncp := Ipcp | Ip6cp.
 Definition ncp_out (n : ncp) (c : nat) : out := match n with Ipcp => OIpcp c | Ip6cp => OIp6cp c end.
@@ -263,7 +353,7 @@ Definition check_open (i : nat) (m : mach) : mach :=
       let m1 := emit OLifeA (upd (set_ph POpen) m) in
       match cur4 s with
       | ANone => m1                                   (* setupSession: no IPv4 address, nothing queued *)
-      | _ => let m2 := emit OSbAdd m1 in mkM (ms m2) (mn m2) (mfree m2) (mq m2 ++ [(i, gen s)]) (mo m2)
+      | _ => let m2 := emit OSbAdd m1 in mkM (ms m2) (mn m2) (mfree m2) (mq m2 ++ [(i, gen s)]) (mo m2) (mfree6 m2)
       end
     else m
   | _ => m
@@ -287,20 +377,53 @@ Definition ncp_apply (i : nat) (n : ncp) (g : fsm -> fsm * list act) (m : mach) 
   let '(f', acts) := g (get_ncp n (ms m)) in
   fold_left (fun m a => ncp_act i n a m) acts (upd (set_ncp n f') m).
 
-(* session.go startNCP *)
-Definition start_ncp (v : vr) (i : nat) (m : mach) : mach :=
+(* session.go startNCP, in three parts *)
+(* allocateFromPool / ReserveIP *)
+Definition start_v4 (m : mach) : mach :=
   let s := ms m in
-  let m1 :=
-    match cur4 s with
-    | ANone =>
-      match mfree m with
-      | S fr => emit GAlloc (mkM (set_addr (static_attr s) APool (assigned4 s) (acked4 s) true s) (mn m) fr (mq m) (mo m))
-      | O => m
-      end
-    | _ => m        (* ReserveIP of an address this session already holds, or of one outside every pool: no effect *)
-    end in
-  (* no constant fall-back address any more (24c9504): without a usable IPv4 address IPCP is not started and
-     IPv4Address stays nil; IPv6CP is started in any case *)
+  match cur4 s with
+  | ANone =>
+    match mfree m with
+    | S fr => emit GAlloc (mkM (set_addr (static_attr s) APool (assigned4 s) (acked4 s) true s) (mn m) fr (mq m) (mo m) (mfree6 m))
+    | O => m
+    end
+  | APool =>
+    (* ReserveIP of the address the session holds: no effect.  For a session that has been through terminate() (a held
+       answer on /repo HEAD, [vhl] = false) the address went back to the pool and is reserved again *)
+    if live s then m else
+    match mfree m with
+    | S fr => emit GAlloc (mkM s (mn m) fr (mq m) (mo m) (mfree6 m))
+    | O => m
+    end
+  | _ => m        (* ReserveIP of an address outside every pool: no effect *)
+  end.
+Definition rereserve6 (pdf : bool) (m : mach) : mach :=
+  match pool_of pdf (mfree6 m) with
+  | S n => emit GAlloc (mkM (ms m) (mn m) (mfree m) (mq m) (mo m) (pool_set pdf n (mfree6 m)))
+  | O => m
+  end.
+(* allocateIANAFromPool: an IA_NA address of the IPv6 profile is taken at the accept unless the session has one *)
+Definition start_na (m : mach) : mach :=
+  match xs (na (v6 (ms m))) with
+  | Some _ =>
+    (* ReserveIANA of the address the session already has: no effect; AllocCtx is NOT updated.  After terminate()
+       (held answer, as above) it is taken from the pool again *)
+    if live (ms m) then m else rereserve6 false m
+  | None =>
+    match alloc6 false m with
+    | Some (k, m2) => upd (on_fam false (fun f => mkF6 (Some k) (Some k) (xl f) (xn f))) m2
+    | None => m
+    end
+  end.
+(* ReservePD of s.IPv6Prefix (set by a DHCPv6 REPLY): no effect, except after terminate() as above *)
+Definition start_pd (m : mach) : mach :=
+  match xs (pd (v6 (ms m))) with
+  | Some _ => if live (ms m) then m else rereserve6 true m
+  | None => m
+  end.
+(* no constant fall-back address any more (24c9504): without a usable IPv4 address IPCP is not started and
+   IPv4Address stays nil; IPv6CP is started in any case *)
+Definition start_ncps (v : vr) (i : nat) (m1 : mach) : mach :=
   let m4 :=
     match cur4 (ms m1) with
     | ANone => m1
@@ -309,6 +432,7 @@ Definition start_ncp (v : vr) (i : nat) (m : mach) : mach :=
       ncp_apply i Ipcp (fsm_open (vrfc v)) (ncp_apply i Ipcp fsm_up m3)
     end in
   ncp_apply i Ip6cp (fsm_open (vrfc v)) (ncp_apply i Ip6cp fsm_up m4).
+Definition start_ncp (v : vr) (i : nat) (m : mach) : mach := start_ncps v i (start_pd (start_na (start_v4 m))).
 
 (* session.go onLCPUp / onLCPDown *)
 Definition on_lcp_up (m : mach) : mach :=
@@ -334,7 +458,11 @@ Definition lcp_apply (v : vr) (i : nat) (g : fsm -> fsm * list act) (m : mach) :
 (* session.go publishAAARequest *)
 Definition publish_aaa (t : ptype) (m : mach) : mach :=
   let k := S (mn m) in
-  emit (OReq k) (mkM (set_pend (Some k) t (ms m)) k (mfree m) (mq m) (mo m)).
+  emit (OReq k) (mkM (set_pend (Some k) t (ms m)) k (mfree m) (mq m) (mo m) (mfree6 m)).
+
+(* s.AllocCtx = s.buildAllocContext(attributes): a NEW context, which knows no IPv6 address or prefix *)
+Definition new_ctx (m : mach) : mach :=
+  upd (on_fam true (fun f => mkF6 (xs f) None (xl f) (xn f))) (upd (on_fam false (fun f => mkF6 (xs f) None (xl f) (xn f))) m).
 
 (* session.go onAuthResult *)
 Definition on_auth_result (v : vr) (i : nat) (allowed : bool) (static : bool) (m : mach) : mach :=
@@ -342,6 +470,7 @@ Definition on_auth_result (v : vr) (i : nat) (allowed : bool) (static : bool) (m
     if allowed then
       let m1 := upd (fun s => let st := static_attr s || static in
                               set_addr st (if st then AStatic else cur4 s) (assigned4 s) (acked4 s) (alloc_pool s) s) m in
+      let m1 := new_ctx m1 in
       let m2 := match pty (ms m1) with PtPap => emit (OPap 2) m1 | PtChap => emit (OChap 3) m1 | PtNone => m1 end in
       start_ncp v i (upd (set_ph PNetwork) m2)
     else
@@ -355,7 +484,9 @@ Definition terminate (m : mach) : mach :=
   let fr := if alloc_pool s && addr_eqb (cur4 s) APool then S (mfree m) else mfree m in
   let s1 := if in_net (ph s) then set_ip6cp (fsm_kill (ip6cp s)) (set_ipcp (fsm_kill (ipcp s)) s) else s in
   let s2 := set_ph PTerminate (set_lcp (fsm_kill (lcp s1)) s1) in
-  emit OLifeR (emit OSbDel (mkM s2 (mn m) fr (mq m) (mo m))).
+  (* ReleaseIANA / ReleasePDByPrefix of s.IPv6Address / s.IPv6Prefix; cleanupSession: provider.ReleaseLease(DUID) *)
+  let fr6 := (fst (mfree6 m) + released (na (v6 s)), snd (mfree6 m) + released (pd (v6 s))) in
+  emit OLifeR (emit OSbDel (mkM s2 (mn m) fr (mq m) (mo m) fr6)).
 
 (* ------------------------------------------------------------------ *)
 (* events *)
@@ -372,7 +503,11 @@ Inductive akind := AAcc | AAccIp | ARej | AErr.
 Definition allowed_of (a : akind) : bool := match a with AAcc | AAccIp => true | _ => false end.
 Inductive event :=
 | EvOpen (i : nat) | EvFrame (i : nat) (f : frame) | EvAAA (k : nat) (a : akind)
-| EvTimer (i : nat) (t : timer) | EvPadt (i : nat) | EvDead (i : nat) | EvSbOk.
+| EvTimer (i : nat) (t : timer) | EvPadt (i : nat) | EvDead (i : nat) | EvSbOk
+(* an AAA answer for request k that handleAAAResponse matched to slot i's session (by the pending id, under the
+   component lock) BEFORE the previous event was handled, and that only now gets the session lock: it re-checks the
+   pending id there — and, with [vhl], that the session has not been through terminate() *)
+| EvAAAHeld (i k : nat) (a : akind).
 
 (* dispatcher.HandleFrame + the session's handlers, for a live session *)
 Definition handle_frame (v : vr) (i : nat) (f : frame) (m : mach) : mach :=
@@ -402,9 +537,9 @@ Definition handle_frame (v : vr) (i : nat) (f : frame) (m : mach) : mach :=
   | FrIp6Junk => m
   (* dispatcher: network phase and IPv6CP Opened; pppoe/dhcpv6.go forwardDHCPv6: ipv6cpOpen; a REPLY to a
      REQUEST binds the address in the dataplane (bindDHCPv6) *)
-  | FrDh6Sol => if in_net (ph s) then match fs (ip6cp s) with Opened => if ip6cp_open s then emit ODh6Adv m else m | _ => m end else m
+  | FrDh6Sol => if in_net (ph s) then match fs (ip6cp s) with Opened => if ip6cp_open s then dh6 false m else m | _ => m end else m
   | FrDh6Req => if in_net (ph s) then match fs (ip6cp s) with
-                                     | Opened => if ip6cp_open s then emit OSb6Add (emit ODh6Reply m) else m
+                                     | Opened => if ip6cp_open s then dh6 true m else m
                                      | _ => m end else m
   | FrUnkProto => emit (OLcp cProtoRej) m
   | FrShort => m
@@ -427,9 +562,11 @@ Definition handle_timer (v : vr) (i : nat) (t : timer) (m : mach) : mach :=
 
 (* ------------------------------------------------------------------ *)
 (* component *)
-Record state := mkSt { sl : list sess; nreq : nat; free : nat; queue : list (nat * nat) }.
+Record state := mkSt { sl : list sess; nreq : nat; free : nat; queue : list (nat * nat); free6 : nat * nat }.
 Definition nslots := 3.
-Definition init (pool : nat) : state := mkSt (repeat sess0 nslots) 0 pool [].
+Definition init3 (pool pool6 poolpd : nat) : state := mkSt (repeat sess0 nslots) 0 pool [] (pool6, poolpd).
+(* [init pool]: the IPv6 profile's IA_NA pool has 16 addresses and its PD pool 16 prefixes *)
+Definition init (pool : nat) : state := init3 pool 16 16.
 
 Fixpoint set_nth {A} (n : nat) (x : A) (l : list A) : list A :=
   match l, n with
@@ -447,14 +584,14 @@ Definition on_slot (st : state) (i : nat) (h : mach -> mach) : state * list (nat
   match nth_error (sl st) i with
   | None => (st, [])
   | Some s =>
-    let m := h (mkM s (nreq st) (free st) (queue st) []) in
-    (mkSt (set_nth i (ms m) (sl st)) (mn m) (mfree m) (mq m), tag i (rev (mo m)))
+    let m := h (mkM s (nreq st) (free st) (queue st) [] (free6 st)) in
+    (mkSt (set_nth i (ms m) (sl st)) (mn m) (mfree m) (mq m) (mfree6 m), tag i (rev (mo m)))
   end.
 
 (* handlePADR with a valid cookie: a new SessionState replaces whatever the slot held *)
 Definition open_session (v : vr) (i : nat) (m : mach) : mach :=
-  let s0 := mkS true (S (gen (ms m))) PEstablish fsm0 fsm0 fsm0 true 0 None PtNone false false false ANone ANone ANone false in
-  let m1 := emit OPads (mkM s0 (mn m) (mfree m) (mq m) (mo m)) in
+  let s0 := mkS true (S (gen (ms m))) PEstablish fsm0 fsm0 fsm0 true 0 None PtNone false false false ANone ANone ANone false v60 in
+  let m1 := emit OPads (mkM s0 (mn m) (mfree m) (mq m) (mo m) (mfree6 m)) in
   lcp_apply v i (fsm_open (vrfc v)) (lcp_apply v i fsm_up m1).
 
 (* component.handleAAAResponse: first live session whose pending id equals the response's id.
@@ -473,6 +610,15 @@ Fixpoint find_idx {A} (p : A -> bool) (l : list A) (i : nat) : option nat :=
   | x :: r => if p x then Some i else find_idx p r (S i)
   end.
 
+(* handleAAAResponse once it has the session lock: onAuthResult; since c6c869c a rejected or failed authentication
+   then runs the dead-peer teardown of that session at once (removed from the indexes, terminate()) *)
+Definition aaa_apply (v : vr) (i : nat) (a : akind) (m : mach) : mach :=
+  let m1 := on_auth_result v i (allowed_of a) (match a with AAccIp => true | _ => false end) m in
+  (* handleDeadPeer(sid): nothing when the session is not in the indexes any more (a held answer, HEAD) *)
+  if vrep v && negb (allowed_of a) && live (ms m1) then terminate (upd (set_live false) m1) else m1.
+(* the re-check under the session lock for an answer matched earlier: terminate() does not clear the pending id *)
+Definition held_matches (v : vr) (k : nat) (s : sess) : bool :=
+  pend_matches v k s || (negb (vhl v) && match k, pend s with S _, Some k' => Nat.eqb k k' | _, _ => false end).
 Definition step (v : vr) (st : state) (e : event) : state * list (nat * out) :=
   match e with
   | EvOpen i => on_slot st i (open_session v i)
@@ -487,12 +633,12 @@ Definition step (v : vr) (st : state) (e : event) : state * list (nat * out) :=
       else m)
   | EvAAA k a =>
     match find_idx (pend_matches v k) (sl st) 0 with
-    | Some i =>
-      (* handleAAAResponse: onAuthResult under the session lock; since c6c869c a rejected or failed authentication
-         then runs the dead-peer teardown of that session at once (removed from the indexes, terminate()) *)
-      on_slot st i (fun m =>
-        let m1 := on_auth_result v i (allowed_of a) (match a with AAccIp => true | _ => false end) m in
-        if vrep v && negb (allowed_of a) then terminate (upd (set_live false) m1) else m1)
+    | Some i => on_slot st i (aaa_apply v i a)
+    | None => (st, [])
+    end
+  | EvAAAHeld i k a =>
+    match nth_error (sl st) i with
+    | Some s => if held_matches v k s then on_slot st i (aaa_apply v i a) else (st, [])
     | None => (st, [])
     end
   | EvTimer i t => on_slot st i (handle_timer v i t)
@@ -502,7 +648,7 @@ Definition step (v : vr) (st : state) (e : event) : state * list (nat * out) :=
     match queue st with
     | [] => (st, [])
     | (i, g) :: q =>
-      let st' := mkSt (sl st) (nreq st) (free st) q in
+      let st' := mkSt (sl st) (nreq st) (free st) q (free6 st) in
       match nth_error (sl st) i with
       | Some s => if Nat.eqb (gen s) g then (st', [(i, OProg)]) else (st', [(nslots, OProg)])
       | None => (st', [])
@@ -530,7 +676,7 @@ Definition mon0 := mkMon None false.
 Definition mon_in (i : nat) (e : event) (mn : mon) : mon :=
   match e with
   | EvOpen j | EvPadt j | EvDead j => if Nat.eqb i j then mon0 else mn
-  | EvAAA k a =>
+  | EvAAA k a | EvAAAHeld _ k a =>
     match mcur mn with
     | Some k' => if Nat.eqb k k' && allowed_of a then mkMon (mcur mn) true else mn
     | None => mn
@@ -568,7 +714,16 @@ Fixpoint mon_run (i : nat) (tr : list (event * list (nat * out))) (mn : mon) : o
 
 (* what a never-authorised subscriber may hold: nothing *)
 Definition holds_nothing (s : sess) : bool :=
-  negb (alloc_pool s) && addr_eqb (cur4 s) ANone && negb (in_net (ph s)).
+  negb (alloc_pool s) && Nat.eqb (xn (na (v6 s))) 0 && Nat.eqb (xn (pd (v6 s))) 0 &&
+  addr_eqb (cur4 s) ANone && negb (in_net (ph s)).
+
+(* IPv6 leases taken from the registry and not given back yet *)
+Definition holds6 (s : sess) : bool := negb (Nat.eqb (xn (na (v6 s))) 0 && Nat.eqb (xn (pd (v6 s))) 0).
+(* what a session that has been through terminate still owns in the registry: a pool address shadowed by a Framed-IP,
+   IPv6 addresses / prefixes that neither s.IPv6Address / s.IPv6Prefix nor a named provider lease refers to *)
+Definition leaks (s : sess) : bool :=
+  (alloc_pool s && negb (addr_eqb (cur4 s) APool)) ||
+  negb (Nat.eqb (xn (na (v6 s))) (released (na (v6 s)))) || negb (Nat.eqb (xn (pd (v6 s))) (released (pd (v6 s)))).
 
 (* ------------------------------------------------------------------ *)
 (* Part 3: plugins/auth/radius/provider.go Authenticate followed by internal/aaa/component.go handleAAARequest
